@@ -146,11 +146,39 @@ SIG = {
     "init_cst": "S", "init_list": "P", "isOne": "P", "isMOne": "P", "isUnit": "P", "newton_iter": "PPN", "crt_recip": "LN",
 }
 # operations without a Gallina model: judged by the specification oracle only (labelled in the evidence)
-NO_MODEL = {"midmul", "mod_ps", "maxpy_s", "shift", "getEntry", "setEntry", "val",
-            "midmul_r", "init_cst", "init_list", "isOne", "isMOne", "isUnit", "newton_iter", "crt_recip"}
-# range helpers whose Gallina wrappers / driver.ml entries are not there yet (remove an op from this set once the driver knows it)
-NO_MODEL_YET = {"mul_r", "stdmul_r", "karamul_r", "sqr_r", "stdsqr_r", "sqrrec_r", "subin_range", "subin_grow", "subin_at"}
-NO_MODEL |= NO_MODEL_YET
+NO_MODEL = {"init_cst", "init_list", "isOne", "isMOne", "isUnit", "newton_iter", "crt_recip"}
+# (the middle product, shift, getEntry/setEntry/val, maxpy(scalar), mod by a scalar and the protected range helpers all have
+#  Gallina models and driver.ml entries since phase 3)
+
+
+def model_line_op(variant, op):
+    """name of the driver.ml entry for a case: the three middle-product forms share one oracle but have their own model"""
+    if op == "midmul":
+        return "karamidmul" if "karamidmul" in variant else "stdmidmul" if "stdmidmul" in variant else "midmul"
+    if op == "midmul_r":
+        return {"r.midmul": "midmul_raw", "r.stdmidmul": "stdmidmul_raw", "r.karamidmul": "karamidmul_raw"}[variant]
+    return op
+
+
+# how the source initialises W in powmod (exponent 0): read from givpoly1misc.inl on every run and passed to the model
+E0RED = [None]
+
+
+def source_powmod_e0red():
+    """True: `mod(W, one, U)` (fix-12), False: `assign(W,one)` (1 also for a non-zero constant modulus), None: unreadable"""
+    try:
+        txt = open(os.path.join(vf.REPO, "src/library/poly1/givpoly1misc.inl")).read()
+    except OSError:
+        return None
+    m = re.search(r"::powmod\s*\(.*?\bwhile\s*\(", txt, flags=re.S)
+    if not m:
+        return None
+    body = re.sub(r"//[^\n]*", "", m.group(0))
+    red = re.search(r"\bmod\s*\(\s*W\s*,\s*one\s*,\s*U\s*\)", body) is not None
+    raw = re.search(r"\bassign\s*\(\s*W\s*,\s*one\s*\)", body) is not None
+    if red == raw:
+        return None
+    return red
 # operations whose result is a RAW vector (range helpers: no normalisation promised) or a documented unnormalised form
 # (init(P, 0) = [0], init(P, {..}) keeps the list as given): value compared entry by entry, normal form not required
 RAW_RESULT = {"mul_r", "stdmul_r", "karamul_r", "sqr_r", "stdsqr_r", "sqrrec_r", "subin_range", "subin_grow", "subin_at", "midmul_r",
@@ -410,7 +438,7 @@ def spec_check(op, p, args, out):
     if op == "pow":
         return eq(ppow(a[0], a[1], p))
     if op == "powmod":
-        return eq(ppow(a[0], a[1], p, norm(a[2])))
+        return eq(ppow(a[0], a[1], p, norm(a[2])), klass="exponent-0-constant-modulus" if (a[1] == 0 and len(norm(a[2])) == 1) else "value")
     if op in ("axpy", "axpyin"):
         if op == "axpy":
             return eq(padd(pmul(a[0], a[1], p), a[2], p))
@@ -1452,6 +1480,26 @@ def tok_args(op, args):
     return " ".join(out)
 
 
+def powmod_e0_cases(rng, fields):
+    """powmod with exponent 0 (and 1, 2, 5 for comparison) for moduli of degree 0 (the class of fix-12: every remainder modulo a
+    non-zero constant is 0), 1 and 3, through every call form of powmod, every field, deterministically"""
+    cases = []
+    flds = [f for f in fields if f[1] < 2 ** 40]
+    forms = sorted(v for v, o in VARIANTS.items() if o == "powmod" and v not in OPTIONAL_VARIANTS)
+    for fi, (fk, p) in enumerate(flds):
+        c = 1 + rng.below(p - 1)
+        mods = [[c], [1], [c, 0], [rng.below(p), 1], [rng.below(p), rng.below(p), rng.below(p), c]]
+        ops = [[], [1], [c], [rng.below(p), rng.below(p), c], [rng.below(p) for _ in range(5)] + [1]]
+        for vi, v in enumerate(forms):
+            for ui, U in enumerate(mods):
+                for ai, A in enumerate(ops):
+                    for e in (0, 1, 2, 5):
+                        if e and (ui + ai + vi + fi) % 3:
+                            continue                      # e = 0: every combination; the others: a third
+                        cases.append((v, "powmod", fk, p, [list(A), e, list(U)]))
+    return cases
+
+
 def source_thresholds():
     txt = open(os.path.join(vf.REPO, "src/library/poly1/givpoly1kara.inl")).read()
     k = re.search(r"#define\s+KARA_THRESHOLD\s+(\d+)", txt)
@@ -1593,6 +1641,72 @@ def run_model_parallel(drv, lines, nproc=10):
     return rc, out, err
 
 
+def model_line(case, kthr, sthr):
+    return "%s %d %d %d %s%s\n" % (model_line_op(case[0], case[1]), case[3], kthr, sthr, tok_args(case[1], case[4]),
+                                   " e0red" if (case[1] == "powmod" and E0RED[0]) else "")
+
+
+def model_cost(case):
+    """rough cost of a case for the extracted model (coefficient operations), used only to balance the model processes"""
+    v, op, fk, p, a = case
+    ls = sorted([len(x) for x in a if isinstance(x, list)], reverse=True) + [0, 0]
+    n, m = ls[0] + 1, ls[1] + 1
+    c = n * m
+    if op in ("gcd", "gcdext", "lcm", "invmod", "invmodunit"):
+        c += c * min(n, m) // 2
+    elif op == "powmod":
+        c += max(a[1], 1).bit_length() * (len(a[2]) + 1) ** 2 * 4
+    elif op == "pow":
+        c = (n * max(1, min(a[1], 64))) ** 2
+    elif op in ("div", "divmod", "divmodin", "mod", "isDivisor", "invmodpowx", "interpolate", "crt_toring"):
+        c *= 4
+    if p >= 2 ** 40:
+        c *= 40
+    return c + 5
+
+
+MODEL_PRE = {}      # stream label -> model outputs aligned with the stream's modelled cases (filled by precompute_models)
+
+
+def precompute_models(drv, streams, nproc=12):
+    """all modelled cases of all streams in ONE balanced batch (longest-processing-time-first over nproc driver processes): the
+    per-stream batches left most processes idle while one finished a heavy case.  A chunk that fails only costs the streams
+    that had lines in it: they fall back to running the model on their own in run_stream."""
+    import heapq
+    items = []
+    for si, (label, tag, cases, k, s2) in enumerate(streams):
+        pos = 0
+        for c in cases:
+            if c[1] not in NO_MODEL:
+                items.append((model_cost(c), si, pos, model_line(c, k, s2)))
+                pos += 1
+        MODEL_PRE[label] = [None] * pos
+    if not drv or not items:
+        MODEL_PRE.clear()
+        return
+    items.sort(key=lambda t: -t[0])
+    heap = [(0, k) for k in range(nproc)]
+    chunks = [[] for _ in range(nproc)]
+    for it in items:
+        load, k = heapq.heappop(heap)
+        chunks[k].append(it)
+        heapq.heappush(heap, (load + it[0], k))
+
+    def one(ch):
+        return vf.run_lines(drv, "".join(t[3] for t in ch), timeout=1500)
+    with ThreadPoolExecutor(max_workers=nproc) as ex:
+        res = list(ex.map(one, chunks))
+    bad = set()
+    for ch, (r, o, e) in zip(chunks, res):
+        if r != 0 or len(o) != len(ch):
+            bad.update(t[1] for t in ch)
+            continue
+        for t, line in zip(ch, o):
+            MODEL_PRE[streams[t[1]][0]][t[2]] = line
+    for si in bad:
+        MODEL_PRE.pop(streams[si][0], None)
+
+
 def run_stream(chk, label, bins, tag, drv, cases, kthr, sthr, stats):
     """run implementation (one binary per field) and model on the cases, three-way compare"""
     if not cases:
@@ -1644,8 +1758,11 @@ def run_stream(chk, label, bins, tag, drv, cases, kthr, sthr, stats):
     # model
     mout = None
     midx = [i for i, c in enumerate(cases) if c[1] not in NO_MODEL]
-    if drv and midx:
-        lines_m = ["%s %d %d %d %s\n" % (cases[i][1], cases[i][3], kthr, sthr, tok_args(cases[i][1], cases[i][4])) for i in midx]
+    pre = MODEL_PRE.get(label)
+    if drv and midx and pre is not None and len(pre) == len(midx) and all(x is not None for x in pre):
+        mout = dict(zip(midx, pre))
+    elif drv and midx:
+        lines_m = [model_line(cases[i], kthr, sthr) for i in midx]
         rc, mo, merr = run_model_parallel(drv, lines_m)
         if rc == 124:
             # a time-out of our own tooling (1500 s) is not a verdict about the property: oracle only for this stream
@@ -1730,6 +1847,7 @@ def main(tier, replay=None):
     chk = vf.Check("C08", tier, "proof")
     rng = vf.Rng(chk.seed)
     kth, sth = source_thresholds()
+    E0RED[0] = source_powmod_e0red()
     chk.cov["trusted_base"] = [
         "Coq 8.16.1 kernel",
         "extraction: ExtrOcamlBasic only; Z/positive/nat kept as extracted inductives; OCaml 4.13.1; zarith only for text I/O in harness/zio.ml",
@@ -1742,7 +1860,9 @@ def main(tier, replay=None):
     chk.assumptions = ["model is hand-written after src/library/poly1/*.inl; tie = correspondence on generated cases over prime fields in six "
                        "coefficient-domain implementations; extension fields GF(p^k), k>1, and QField are not run",
                        "KARA_THRESHOLD/SQR_THRESHOLD read from givpoly1kara.inl = %s/%s and passed to the model; second harness forced to 2/2" % (kth, sth),
-                       "middle product (midmul/stdmidmul/karamidmul), shift, getEntry/setEntry/val, maxpy(scalar) have no Gallina model: specification oracle only"]
+                       "powmod's exponent-0 initialisation read from givpoly1misc.inl = %s and passed to the model (parameter e0red)"
+                       % {True: "mod(W,one,U)", False: "assign(W,one)", None: "UNREADABLE"}[E0RED[0]],
+                       "oracle only (no Gallina model): init(P,scalar), init(P,{list}), isOne/isMOne/isUnit, the public newtoninviter, Poly1CRT accessors"]
     # 1. proofs
     res = vf.coq_check_props(AREA)
     chk.proof_result(res, AREA)
@@ -1753,6 +1873,9 @@ def main(tier, replay=None):
     if kth is None or sth is None:
         chk.broke("cannot read KARA_THRESHOLD / SQR_THRESHOLD from givpoly1kara.inl")
         kth, sth = kth or 50, sth or 50
+    if E0RED[0] is None:
+        chk.broke("cannot read the initialisation of W in Poly1Dom::powmod from givpoly1misc.inl (expected `mod(W, one, U)` or `assign(W,one)`)")
+        E0RED[0] = True
     stats = {"by_stream": {}, "by_op": {}, "by_variant": {}, "by_field": {}, "by_size": {}, "corr": 0, "lazy_unnormalised": {}, "oracle_only": 0,
              "in_known_defect_class_oracle_only": 0, "not_run": 0,
              "known_classes": set((k.get("site"), k.get("klass")) for k in vf.load_known()
@@ -1785,31 +1908,43 @@ def main(tier, replay=None):
                 run_stream(chk, "replay", bins, tag, drv, [(c["variant"], op, c.get("field", "mi32"), c["p"], a)], k, s, stats)
     else:
         per = 24 if tier == "quick" else 150
-        run_stream(chk, "thr2", bins, "t2", drv, gen_cases(rng, tier, 2, False, per, FIELDS_SMALLTHR, have), 2, 2, stats)
-        run_stream(chk, "real", bins, "real", drv, gen_cases(rng, tier, kth, True, per, FIELDS_REAL, have), kth, sth, stats)
-        run_stream(chk, "exponent-boundaries", bins, "t2", drv, exponent_cases(rng, tier), 2, 2, stats)
-        run_stream(chk, "structured thr2", bins, "t2", drv, structured_cases(rng, tier, 2, FIELDS_SMALLTHR), 2, 2, stats)
-        run_stream(chk, "structured real", bins, "real", drv, structured_cases(rng, tier, kth, FIELDS_REAL), kth, sth, stats)
-        run_stream(chk, "range-helpers thr2", bins, "t2", drv, range_cases(rng, 2, FIELDS_SMALLTHR, False), 2, 2, stats)
-        run_stream(chk, "range-helpers real", bins, "real", drv, range_cases(rng, kth, FIELDS_REAL, True), kth, sth, stats)
-        run_stream(chk, "det-products thr2", bins, "t2", drv, det_product_cases(rng, 2, FIELDS_SMALLTHR), 2, 2, stats)
-        run_stream(chk, "det-products real", bins, "real", drv, det_product_cases(rng, kth, FIELDS_REAL), kth, sth, stats)
-        run_stream(chk, "det-division thr2", bins, "t2", drv, det_division_cases(rng, 2, FIELDS_SMALLTHR), 2, 2, stats)
-        run_stream(chk, "det-division real", bins, "real", drv, det_division_cases(rng, kth, FIELDS_REAL), kth, sth, stats)
-        run_stream(chk, "det-trivial-operands", bins, "t2", drv, det_trivial_cases(rng, FIELDS_SMALLTHR), 2, 2, stats)
-        run_stream(chk, "unnormalised-operands", bins, "t2", drv, unnormalised_cases(rng, 6 if tier == "quick" else 60, FIELDS_SMALLTHR), 2, 2, stats)
+        S = []       # (label, binary tag, cases, kthr, sthr)
+        S.append(("thr2", "t2", gen_cases(rng, tier, 2, False, per, FIELDS_SMALLTHR, have), 2, 2))
+        S.append(("real", "real", gen_cases(rng, tier, kth, True, per, FIELDS_REAL, have), kth, sth))
+        S.append(("exponent-boundaries", "t2", exponent_cases(rng, tier), 2, 2))
+        S.append(("structured thr2", "t2", structured_cases(rng, tier, 2, FIELDS_SMALLTHR), 2, 2))
+        S.append(("structured real", "real", structured_cases(rng, tier, kth, FIELDS_REAL), kth, sth))
+        S.append(("range-helpers thr2", "t2", range_cases(rng, 2, FIELDS_SMALLTHR, False), 2, 2))
+        S.append(("range-helpers real", "real", range_cases(rng, kth, FIELDS_REAL, True), kth, sth))
+        S.append(("det-products thr2", "t2", det_product_cases(rng, 2, FIELDS_SMALLTHR), 2, 2))
+        S.append(("det-products real", "real", det_product_cases(rng, kth, FIELDS_REAL), kth, sth))
+        S.append(("det-division thr2", "t2", det_division_cases(rng, 2, FIELDS_SMALLTHR), 2, 2))
+        S.append(("det-division real", "real", det_division_cases(rng, kth, FIELDS_REAL), kth, sth))
+        S.append(("det-trivial-operands", "t2", det_trivial_cases(rng, FIELDS_SMALLTHR), 2, 2))
+        # the class of fix-12 is generated once known_findings.json lists it (known: reported as KNOWN-FINDING; fixed: a regression is a VIOLATION)
+        if any(k.get("property") == "C08" and k.get("klass") == "exponent-0-constant-modulus" for k in vf.load_known()):
+            S.append(("powmod-exponent-0", "t2", powmod_e0_cases(rng, FIELDS_SMALLTHR), 2, 2))
+        else:
+            INCONCLUSIVE.append("powmod-exponent-0: class not generated (no entry for Poly1Dom::powmod / exponent-0-constant-modulus in known_findings.json)")
+        S.append(("unnormalised-operands", "t2", unnormalised_cases(rng, 6 if tier == "quick" else 60, FIELDS_SMALLTHR), 2, 2))
         exv = ["mul.rpq", "karamul", "sqr", "divmod", "modin", "gcd.2", "gcd.5", "sub.rpq", "add.rpq", "lcm", "invmod", "pdivmod", "pmod"]
         if tier == "quick":
-            run_stream(chk, "exhaustive GF(2) deg<=3", bins, "t2", drv, exhaustive_cases("mi32", 2, 3, exv), 2, 2, stats)
-            run_stream(chk, "exhaustive GF(3) deg<=2", bins, "t2", drv, exhaustive_cases("mi32", 3, 2, exv), 2, 2, stats)
+            S.append(("exhaustive GF(2) deg<=3", "t2", exhaustive_cases("mi32", 2, 3, exv), 2, 2))
+            S.append(("exhaustive GF(3) deg<=2", "t2", exhaustive_cases("mi32", 3, 2, exv), 2, 2))
             chk.cov["exhaustive_spaces"] = ["GF(2) deg<=3 pairs", "GF(3) deg<=2 pairs"]
         else:
-            run_stream(chk, "exhaustive GF(2) deg<=6", bins, "t2", drv, exhaustive_cases("mi32", 2, 6, exv), 2, 2, stats)
-            run_stream(chk, "exhaustive GF(3) deg<=4", bins, "t2", drv, exhaustive_cases("mi32", 3, 4, exv), 2, 2, stats)
-            run_stream(chk, "exhaustive GF(3) deg<=3 Zech", bins, "t2", drv, exhaustive_cases("gfq", 3, 3, exv), 2, 2, stats)
-            run_stream(chk, "exhaustive GF(2) deg<=5 thr 1/3", bins, "t13", drv, exhaustive_cases("mi32", 2, 5, exv), 1, 3, stats)
-            run_stream(chk, "thr13", bins, "t13", drv, gen_cases(rng, tier, 3, False, per, FIELDS_SMALLTHR, have), 1, 3, stats)
+            S.append(("exhaustive GF(2) deg<=6", "t2", exhaustive_cases("mi32", 2, 6, exv), 2, 2))
+            S.append(("exhaustive GF(3) deg<=4", "t2", exhaustive_cases("mi32", 3, 4, exv), 2, 2))
+            S.append(("exhaustive GF(3) deg<=3 Zech", "t2", exhaustive_cases("gfq", 3, 3, exv), 2, 2))
+            S.append(("exhaustive GF(2) deg<=5 thr 1/3", "t13", exhaustive_cases("mi32", 2, 5, exv), 1, 3))
+            S.append(("thr13", "t13", gen_cases(rng, tier, 3, False, per, FIELDS_SMALLTHR, have), 1, 3))
             chk.cov["exhaustive_spaces"] = ["GF(2) deg<=6 pairs", "GF(3) deg<=4 pairs", "GF(3) deg<=3 pairs (Zech)", "GF(2) deg<=5 pairs (thr 1/3)"]
+        import time
+        tm = time.time()
+        precompute_models(drv, S)
+        vf.log("C08 extracted model: %d streams in one balanced batch, %.1fs" % (len(S), time.time() - tm))
+        for label, tag, cases, k, s2 in S:
+            run_stream(chk, label, bins, tag, drv, cases, k, s2, stats)
     if len(chk.broken) > 20:
         chk.broken = chk.broken[:20] + [{"what": "... %d more" % (len(chk.broken) - 20), "detail": ""}]
     chk.cov["rule"] = ("every call form (variant) x coefficient domain {Modular<int32_t> p=2,3,7,65521; Modular<int64_t> p=2^31-1; Modular<double> p=5,2^26-5; "
@@ -1826,6 +1961,7 @@ def main(tier, replay=None):
         chk.broke("%d cases were not run because the implementation harness hung or crashed repeatedly" % stats["not_run"])
     chk.cov["variants"] = len(VARIANTS)
     chk.cov["thresholds_from_source"] = [kth, sth]
+    chk.cov["powmod_exponent0_initialisation_from_source"] = "mod(W,one,U)" if E0RED[0] else "assign(W,one)"
     chk.cov["distribution_by_op"] = stats["by_op"]
     chk.cov["distribution_by_variant"] = stats["by_variant"]
     chk.cov["call_forms"] = dict(sorted(stats["by_variant"].items()))
